@@ -200,10 +200,20 @@ def runEvF (R : Rounding) (n : Net) : Ev → Net × List Rec
                      loadBefore := 0, load := 0, bw := 0, capS := 0 }])
     | some ch =>
       let enJ := match ch.en[j]? with | some b => b | none => false
+      let memJ := match ch.mem[j]? with | some b => b | none => false
       let enI := match ch.en[i]? with | some b => b | none => false
-      let ok := enJ && j != i
+      let ok := memJ && enJ && j != i
       (n, [{ wireless := true, k := c, verdict := hearVerdict ok, enS := enI, enR := ok, rcv := [j], size := 0,
              loadBefore := ch.load, load := ch.load, bw := ch.cap, capS := 0 }])
+
+  | .wjoin c i =>
+    match n.chans[c]? with
+    | none => (n, [])
+    | some ch => ({ n with chans := n.chans.set c { ch with mem := ch.mem.set i true } }, [])
+  | .wleave c i =>
+    match n.chans[c]? with
+    | none => (n, [])
+    | some ch => ({ n with chans := n.chans.set c { ch with mem := ch.mem.set i false } }, [])
 
 def runEvsF (R : Rounding) (n : Net) : List Ev → Net × List Rec
   | [] => (n, [])
@@ -306,6 +316,8 @@ theorem runEvF_eq (R : Rounding) (n : Net) (e : Ev) (h : Inv n) (hs : Small n) :
   | setEn k endA v => unfold runEvF runEv; rfl
   | wsetEn c i v => unfold runEvF runEv; rfl
   | wrecv c i j => unfold runEvF runEv; rfl
+  | wjoin c i => unfold runEvF runEv; rfl
+  | wleave c i => unfold runEvF runEv; rfl
   | lost k fromA s nested =>
     unfold runEvF runEv
     cases hk : n.links[k]? with
